@@ -485,16 +485,16 @@ func withFullTrace(t *testing.T, p Profile, rec ViolationRecord) ViolationRecord
 		rec.Detail += " [WARNING: re-execution did not reproduce the same signature/hash]"
 		return rec
 	}
-	rec.Trace = CompactTrace(out.Res.Trace, 700)
+	rec.Trace = CompactTrace(out.Res.Trace, 700, p.ID() != "C19")
 	return rec
 }
 
-func CompactTrace(tr []string, max int) []string {
+func CompactTrace(tr []string, max int, dropHotkey bool) []string {
 	var out []string
 	skipped := 0
 	for _, l := range tr {
-		if strings.Contains(l, "(*Collector).") || strings.Contains(l, "(*Counter).Latch") || strings.HasSuffix(l, "clock +10s") ||
-			(strings.Contains(l, " TM tm:") && strings.HasSuffix(l, " start")) {
+		if dropHotkey && (strings.Contains(l, "(*Collector).") || strings.Contains(l, "(*Counter).Latch") || strings.HasSuffix(l, "clock +10s") ||
+			(strings.Contains(l, " TM tm:") && strings.HasSuffix(l, " start"))) {
 			skipped++
 			continue
 		}
